@@ -24,19 +24,22 @@ def fr(q):
 
 
 # ------------------------------------------------------------------------------------------------ rendering
-def leaf_text(l):
+def leaf_text(l, style=0):
+    """numbers are written as integers ('3') or as decimals ('3.0') depending on the style: the potable reader types them
+    differently (int / float), the potential denoted is the same"""
     c = l["c"]
     k = l["kind"]
+    num = (lambda v: "%d" % v) if style % 4 < 2 else (lambda v: "%.1f" % v)
     if k == "poly":
-        return "as.polynomial %d %d %d" % tuple(c)
+        return "as.polynomial %s %s %s" % tuple(num(v) for v in c)
     if k == "formula":
-        return "pf %d %d %d" % tuple(c)
+        return "pf %s %s %s" % tuple(num(v) for v in c)
     if k == "const":
-        return "as.constant %d" % c[0]
+        return "as.constant %s" % num(c[0])
     if k == "zero":
         return "as.zero"
     if k == "expn":
-        return "as.exponential %d %d" % (c[0], l["n"])
+        return "as.exponential %s %s" % (num(c[0]), num(l["n"]))
     raise AssertionError(k)
 
 
@@ -44,7 +47,7 @@ def item_text(it, style):
     t = it["t"]
     sep = ", " if style % 2 == 0 else " ,"
     if t == "leaf":
-        return leaf_text(it)
+        return leaf_text(it, style)
     if t in ("sum", "product"):
         return "%s(%s)" % (t, sep.join(def_text(a, style) for a in it["args"]))
     if t == "pow":
